@@ -44,9 +44,10 @@ def judge1d(ctx, m, kind, args):
     ctx.close("averages", max(abs(a - c) for a in av) / c, 1e-12, kind + "/average-not-exact-for-constants", {"averages of +-3.7": av}, cls=cls)
     if kind == "refinedmesh":
         a, b, ratio, nc = args["nratioa"], args["nratiob"], args["ratio"], n
-        prop = nc * a / (a + b)
-        if abs(prop - round(prop)) < 1e-9 and 1 <= round(prop) <= nc - 1 and float(a).is_integer() and float(b).is_integer():
-            n1 = int(round(prop))
+        from fractions import Fraction
+        prop = Fraction(nc) * Fraction(a) / (Fraction(a) + Fraction(b))       # exact value of the requested proportion (the floats as given)
+        if prop.denominator == 1 and 1 <= prop <= nc - 1:
+            n1 = int(prop)
             d1, d2 = d[:n1], d[n1:]
             u1 = (np.max(d1) - np.min(d1)) / np.mean(d1); u2 = (np.max(d2) - np.min(d2)) / np.mean(d2)
             ctx.close("zones-uniform", max(u1, u2), 1e-11, "refinedmesh/zones-not-uniform", {"n1": n1, "spread1": u1, "spread2": u2}, cls="refined:integral-proportion")
@@ -163,8 +164,13 @@ def refined(ctx, rng, idx):
         a, b = int(rng.integers(1, 6)), int(rng.integers(1, 6))
         n = (a + b) * int(rng.integers(1, 30)) if idx % 3 == 0 else int(rng.integers(1, 201))
     else:
-        a, b = float(np.round(rng.uniform(0.2, 4), 2)), float(np.round(rng.uniform(0.2, 4), 2))       # real zone proportions
-        n = int(rng.integers(2, 201))
+        # real zone proportions; half of them chosen so that the exact proportion is a whole number of cells (a = b, b = 2a, 3a = b...)
+        a = float(rng.choice([0.1, 0.2, 0.3, 0.5, 0.7, 1.5, 2.5, np.round(rng.uniform(0.2, 4), 2)]))
+        if rng.random() < 0.5:
+            k = int(rng.integers(1, 5)); b = a * k if rng.random() < 0.5 else a; a = a if b != a or rng.random() < 0.5 else a
+            n = (1 + int(round(b / a))) * int(rng.integers(1, 60))
+        else:
+            b = float(np.round(rng.uniform(0.2, 4), 2)); n = int(rng.integers(2, 201))
     ctx.describe(kind="refinedmesh", ncell=n, length=L, ratio=ratio, nratioa=a, nratiob=b)
     fmesh.refinedmesh(ncell=n, length=L, ratio=ratio, nratioa=a, nratiob=b)
     ctx.nontrivial("refined", n, L, ratio, a, b)
